@@ -105,7 +105,7 @@ func (H) Generate(rng *simrt.Rand, prop, tier string) (any, simrt.Config) {
 					op = Op{K: "getleaf", P: genPath(rng, false, 4)}
 				}
 			case "lin":
-				switch rng.Pick(40, 8, 12, 10, 3, 12, 4, 3) {
+				switch rng.Pick(40, 8, 12, 10, 3, 12, 4, 3, 3) {
 				case 0:
 					op = Op{K: "add", P: genPath(rng, false, 3), V: val()}
 				case 1:
@@ -122,6 +122,8 @@ func (H) Generate(rng *simrt.Rand, prop, tier string) (any, simrt.Config) {
 					op = Op{K: "delc", P: genPath(rng, true, 3), V: rng.Intn(3)}
 				case 7:
 					op = Op{K: "wdel", P: genPath(rng, true, 3), V: rng.Intn(3)}
+				case 8:
+					op = Op{K: "walks"} // WalkSorted under concurrency: same window clauses as Walk, plus the order
 				}
 			default: // handles
 				// a few hot paths per scenario, so that handles, updates through
@@ -132,7 +134,7 @@ func (H) Generate(rng *simrt.Rand, prop, tier string) (any, simrt.Config) {
 					}
 					return genPath(rng, glob, 3)
 				}
-				switch rng.Pick(30, 14, 14, 10, 8, 10, 4, 4, 4, 4) {
+				switch rng.Pick(30, 14, 14, 10, 8, 10, 4, 4, 4, 4, 3) {
 				case 0:
 					op = Op{K: "add", P: hp(false), V: val()}
 				case 1:
@@ -153,6 +155,8 @@ func (H) Generate(rng *simrt.Rand, prop, tier string) (any, simrt.Config) {
 					op = Op{K: "delc", P: hp(true), V: rng.Intn(3)}
 				case 9:
 					op = Op{K: "wdel", P: hp(true), V: rng.Intn(3)}
+				case 10:
+					op = Op{K: "walks"}
 				}
 			}
 			ops = append(ops, op)
@@ -868,12 +872,18 @@ func checkHandles(x *common.Exec, all []rec, final rec) {
 func checkWindows(x *common.Exec, all []rec) {
 	isDel := func(k string) bool { return k == "del" || k == "delc" || k == "wdel" }
 	for _, q := range all {
-		if q.Op.K != "query" && q.Op.K != "walk" {
+		if q.Op.K != "query" && q.Op.K != "walk" && q.Op.K != "walks" {
 			continue
 		}
 		pat := q.Op.P
-		if q.Op.K == "walk" {
+		if q.Op.K != "query" {
 			pat = nil
+		}
+		if q.Op.K == "walks" {
+			x.Oblige(1)
+			if !sort.SliceIsSorted(q.Order, func(i, j int) bool { return lessPath(unkey(q.Order[i]), unkey(q.Order[j])) }) {
+				x.Violate("C10/sorted-walk-out-of-order", "%v visited the leaves in the order %v, which is not lexicographic", q, q.Order)
+			}
 		}
 		// must: present for the whole duration.
 		for _, a := range all {
@@ -942,7 +952,7 @@ func checkLinearizable(x *common.Exec, all []rec) {
 		if r.Op.K == "query" {
 			continue // not atomic; covered by checkWindows
 		}
-		if r.Op.K == "walk" && r.Inv < maxRet(all, r) {
+		if (r.Op.K == "walk" || r.Op.K == "walks") && r.Inv < maxRet(all, r) {
 			continue // concurrent walk: window clauses only
 		}
 		ops = append(ops, porcupine.Operation{ClientId: r.Task, Input: r, Call: r.Inv, Output: r.Out, Return: r.Ret})
